@@ -52,6 +52,12 @@ def build(cfg, seed=0):
         sim.ri_janus.order = cfg.get("order", 6)
     elif name == "sei":
         sim.ri_sei.OMEGA = 1.0
+    if cfg.get("var") == 1:
+        v = sim.add_variation()
+        v.particles[1].x = 1e-3
+        v.particles[2].vy = -2e-3
+    elif cfg.get("var") == 2:
+        sim.init_megno(seed=12345)
     return sim
 
 
@@ -228,7 +234,9 @@ def server_run(cfg, tmax, exact, seed, workdir, nreq_rng, yield_site):
 
 CFGS = [{"integrator": "whfast", "safe": 1}, {"integrator": "whfast", "safe": 0}, {"integrator": "whfast", "safe": 0, "corrector": 11},
         {"integrator": "ias15"}, {"integrator": "leapfrog"}, {"integrator": "mercurius", "safe": 1}, {"integrator": "mercurius", "safe": 0},
-        {"integrator": "saba", "safe": 0}, {"integrator": "eos", "safe": 0}, {"integrator": "janus"}, {"integrator": "bs"}, {"integrator": "trace"}]
+        {"integrator": "saba", "safe": 0}, {"integrator": "eos", "safe": 0}, {"integrator": "janus"}, {"integrator": "bs"}, {"integrator": "trace"},
+        # variational particles: the snapshot writer sees internal arrays sized for N + N_var
+        {"integrator": "ias15", "var": 1}, {"integrator": "whfast", "safe": 1, "var": 1}, {"integrator": "ias15", "var": 2}]
 
 
 def server_mode(out, seed, nruns, workdir):
